@@ -83,7 +83,7 @@ TEXT = {
         "engine": "S",
         "design_ref": "DESIGN.md sect. 4 (C11), sect. 3.1-3.5",
         "technique": "deterministic simulation with fault injection: seeded schedules of the instrumented batch runner + real client multiplexer against scripted faulty server and client processes under a fake clock; invariant checked after every scheduler step (an outcome is never replaced) plus end-of-run oracle (one outcome per case, verdict classes, server stopped, stderr attribution); shrinking + exact tape replay",
-        "level_text": "Seeded exploration of server fault points x client fault points x schedules for runTestCasesForServer on the current tree: start error, server exits before its request, response truncated at any byte/oversize/empty/garbage/never/without certificate, death after k of n requests, stderr side-band and ordinary lines, combined with client cut/garbage/unknown/early exit/stall/missing answers; bounded-time return, exactly the batch's outcomes, never a pass for an unanswered case, own verdict for answered cases, server context cancelled, side-band attribution are checked on every run. Evidence, not proof.",
+        "level_text": "Seeded exploration of server fault points x client fault points x schedules for runTestCasesForServer on the current tree: start error, server exits before its request, response truncated at any byte/oversize/empty/garbage/never/without certificate, death after k of n requests, stderr side-band and ordinary lines, combined with client cut/garbage/unknown/early exit/stall/missing answers; bounded-time return, exactly the batch's outcomes, never a pass for an unanswered case, own verdict for answered cases, server context cancelled, side-band attribution, and the content of every request handed to the client (server address, client credentials, test-name header - also among the headers of raw requests, with and without headers of their own) are checked on every run. Evidence, not proof.",
         "level_note": "Trusted: simrt scheduler and instrumenter (completeness checked at run time), synctest fake clock, io.Pipe; processes are killable in-process stubs; 'ends with' is read at quiescence of the client (DESIGN.md C11).",
     },
     "C10": {
